@@ -381,9 +381,12 @@ func (s *Server) handleBatch(session *SessionContext, req *Request) (resp *Respo
 }
 
 func (s *Server) handleWrapped(request *RequestContext, item *RequestBatchItem) (resp interface{}, err error) {
+	finished := false
+
 	defer func() {
-		if p := recover(); p != nil {
-			err = errors.Errorf("panic: %s", p)
+		// finished stays false only if the handler panicked: recover alone can't tell panic(nil) from no panic
+		if p := recover(); p != nil || !finished {
+			resp, err = nil, errors.Errorf("panic: %v", p)
 
 			buf := make([]byte, 8192)
 
@@ -396,6 +399,8 @@ func (s *Server) handleWrapped(request *RequestContext, item *RequestBatchItem) 
 
 	if handler == nil {
 		err = wrapError(errors.New("operation not supported"), RESULT_REASON_OPERATION_NOT_SUPPORTED)
+		finished = true
+
 		return
 	}
 
@@ -410,6 +415,8 @@ func (s *Server) handleWrapped(request *RequestContext, item *RequestBatchItem) 
 
 		err = wrapError(errors.New(err.Error()), reason)
 	}
+
+	finished = true
 
 	return
 }
